@@ -28,6 +28,8 @@ func c02(c *eng.Ctx, r *eng.Report) {
 		"R2.8 the six functions of the hex-prefix (compact) key encoding keep the arithmetic constants that make them inverse to each other and equal to the specification (flag = 2·terminator+odd in the high nibble, high nibble first, terminator nibble 16). " +
 		"R2.9 the node iterator's look-ahead leaves the cursor one before the child it offers and only push() advances it, by one (what seek-to-a-start-key relies on). " +
 		"R2.10 every dispatch on the kind of a split RLP item in the trie decoder handles Byte, String and List or ends in an error. " +
+		"R2.12 the root a trie reports is the hash of its root node: every value Trie.Hash returns, and every root Trie.Commit returns with a nil error, comes out of hashRoot (which yields the empty-set root for an empty trie) — never a constant or a zero value; " +
+		"R2.13 the node store's read path has no length floor: whether a stored blob is treated as present depends only on the lookup error and on its being nil — the root node is stored under its hash however short its encoding (the force flag of R2.4), so a test like len(enc) < 32 makes small tries unreadable after a reload; " +
 		"R2.11 prefixLen (where insert/delete split a short node) returns a position: every value it returns after having looked at key content derives from the scan position carried round its loop, never from one comparison step alone. " +
 		"Not decided: equality of the root with the Yellow-Paper value for a given content, iterator order as such, resolution after cache eviction."
 	r.Assume = []string{"nodes are only reachable through the trie package (unexported types)"}
@@ -42,6 +44,8 @@ func c02(c *eng.Ctx, r *eng.Report) {
 	c02IterCursor(c, r)
 	c02KindDispatch(c, r)
 	c02PrefixLen(c, r)
+	c02RootReported(c, r)
+	c02NoLengthFloor(c, r)
 }
 
 func isNodePtr(t types.Type) (string, bool) {
@@ -913,4 +917,70 @@ func c02PrefixLen(c *eng.Ctx, r *eng.Report) {
 		}
 	}
 	r.Check(len(carried) > 0 && n > 0 && bad == "", rule, "prefixLen:position", c.Pos(fn.Pos()), fmt.Sprintf("%d return(s) after the scan started, each computed from the carried position", n), "prefixLen "+bad+": the result of a content comparison is returned without the scan position it was made at, so for keys that first differ beyond the first step the reported common prefix is too short — insert/delete split the short node at the wrong nibble and two tries holding the same entries get different shapes and different roots")
+}
+
+// c02RootReported: Commit has named results; a bare return hands back the zero
+// hash, which is not the root of the empty set.
+func c02RootReported(c *eng.Ctx, r *eng.Report) {
+	const rule = "R2.12"
+	r.Min(rule, 2)
+	for _, spec := range []struct {
+		name   string
+		errIdx int
+	}{{"(*Trie).Hash", -1}, {"(*Trie).Commit", 1}} {
+		fn := c.Func("storage/trie", spec.name)
+		if !r.Anchor(fn != nil, rule, "trie."+spec.name) {
+			continue
+		}
+		bad := ""
+		n := 0
+		for _, re := range eng.Returns(fn) {
+			if spec.errIdx >= 0 && !eng.IsNilConst(re.Incoming(spec.errIdx)) {
+				continue
+			}
+			n++
+			v := re.Incoming(0)
+			if !strings.Contains(eng.Desc(v), "hashRoot(") {
+				bad = c.Pos(re.Ret.Pos()) + " returns " + eng.Desc(v)
+			}
+		}
+		r.Check(bad == "" && n >= 1, rule, "root-reported:"+spec.name, c.Pos(fn.Pos()), "every reported root comes out of hashRoot", spec.name+" at "+bad+", which is not the hash hashRoot computed: for an empty trie the reported root is then the zero hash instead of the empty-set root 56e81f17…, and Hash() and Commit() disagree about the same trie")
+	}
+}
+
+// c02NoLengthFloor: see R2.4 — the root is forced to be stored under its hash
+// even when its encoding is shorter than a hash.
+func c02NoLengthFloor(c *eng.Ctx, r *eng.Report) {
+	const rule = "R2.13"
+	r.Min(rule, 1)
+	bad := ""
+	n := 0
+	for _, name := range []string{"(*NodeDatabase).node", "(*NodeDatabase).Node", "(*NodeDatabase).preimage"} {
+		fn := c.Func("storage/trie", name)
+		if !r.Anchor(fn != nil, rule, "trie."+name) {
+			continue
+		}
+		n++
+		for _, b := range fn.Blocks {
+			iff, ok := b.Instrs[len(b.Instrs)-1].(*ssa.If)
+			if !ok {
+				continue
+			}
+			for _, cd := range eng.Conjuncts(iff.Cond, true, iff) {
+				m, isM := cd.Cmp()
+				if !isM {
+					continue
+				}
+				for _, pr := range [][2]ssa.Value{{m.X, m.Y}, {m.Y, m.X}} {
+					if !strings.HasPrefix(eng.Desc(pr[0]), "builtin:len(") || !strings.Contains(eng.Desc(pr[0]), ".Get(") {
+						continue
+					}
+					if k, isK := eng.ConstInt(pr[1]); !isK || k > 1 {
+						bad = name + " compares " + eng.Desc(pr[0]) + " with " + eng.Desc(pr[1]) + " (" + c.Pos(iff.Pos()) + ")"
+					}
+				}
+			}
+		}
+	}
+	r.Check(bad == "" && n >= 2, rule, "store-read:no-length-floor", "", "presence of a stored node depends only on the lookup error and on the blob being nil/empty", bad+": a stored node shorter than that is treated as missing, but the root node is always stored under its hash, however short (hasher.store force=true) — a trie whose root encodes to fewer bytes cannot be read back after a commit: MissingNodeError for its own root")
 }
